@@ -426,6 +426,12 @@ func runC09R2(c *Ctx, r *Rep) {
 				continue
 			}
 			id := declID(lc.pkg, fd)
+			// a helper written since the reference and only ever called as a statement is seen in its callers, with
+			// the locks they hold (the flattened body below), not on its own
+			if isNewFunc(id) && !fd.Name.IsExported() && onlyStatementCalls(c, lc.pkg, fd) {
+				continue
+			}
+			fd = &ast.FuncDecl{Name: fd.Name, Recv: fd.Recv, Type: fd.Type, Body: c.FlattenNew(lc.pkg, fd)}
 			// constructor exemption: accesses through a local variable initialised from a composite literal of the context type
 			fresh := freshLocals(lc.pkg.TypesInfo, fd, lc.ctxType)
 			w := &lockWalker{info: lc.pkg.TypesInfo}
